@@ -50,7 +50,7 @@ for f in kf["findings"]:
     out.append("| %s | `%s` | %s | %s |" % (f["property"], f["signature"], f["what"].replace("|", "/"), f.get("why_not_fixed", "").replace("|", "/")))
 out.append("")
 out.append("## 5. Seeded changes: which check catches which change\n")
-out.append("Ids <P>-1..3 come from the first wave of sub-agents (all properties), <P>-4..6 from a second wave for the four properties whose checks were built last (C01, C04, C16, C19). Each change compiles and passes the 873 pinned tests (`seeded/<id>/meta.json`: summary, what it needs to manifest, demo). `tools/mutant_matrix.py` applied each to /repo, ran the quick tier of the property's check and reverted. \"signatures\" are the first violation signatures printed.\n")
+out.append("Ids <P>-1..3 come from the first wave of sub-agents (all properties), <P>-4..6 from the second to fifth waves and <P>-7..9 from the sixth (sixteen properties); every property has six to nine. Each change compiles and passes the 873 pinned tests (`seeded/<id>/meta.json`: summary, what it needs to manifest, demo). `tools/mutant_matrix.py` applied each to /repo, ran the quick tier of the property's check and reverted. \"signatures\" are the first violation signatures printed.\n")
 out.append("| change | what was changed | outcome | first signatures |\n|---|---|---|---|")
 for mid in sorted(matrix):
     m = matrix[mid]
